@@ -1,5 +1,7 @@
 //! svh: searchlite verification harness. Drives the real code and records what it did; all
 //! verdicts are produced by TLC on the specifications in /verif/spec.
+mod crash;
+mod fsmodel;
 mod history;
 mod util;
 
@@ -12,6 +14,7 @@ fn main() {
   let args = util::Args::parse(&argv[2..]);
   let res = match argv[1].as_str() {
     "history" => history::main(&args),
+    "crash" => crash::main(&args),
     other => {
       eprintln!("unknown family {other}");
       std::process::exit(2);
